@@ -378,14 +378,25 @@ class Universe:
         return out
 
     # -- matching: mask of DOMs in which element e matches
-    def match_list(self, sl, e, credit=None):
-        m = 0
+    def match_all(self, sl, credit=None):
+        """list (one mask per node) for a selector list; memoised per (credit object, complex selector text)"""
+        out = [0] * self.n
         for cx in sl:
-            m |= self.match_complex(cx, e, credit)
-        return m
+            row = self.match_complex_all(cx, credit)
+            for x in range(self.n):
+                out[x] |= row[x]
+        return out
 
-    def match_complex(self, cx, e, credit=None):
-        # M[i][x]: x matches the prefix ending at compound i
+    def match_list(self, sl, e, credit=None):
+        return self.match_all(sl, credit)[e]
+
+    def match_complex_all(self, cx, credit=None):
+        key = (id(credit) if credit is not None else 0, _freeze(cx))
+        cache = self.__dict__.setdefault("_mc", {})
+        if credit is None or credit.get("__frozen__"):
+            hit = cache.get(key)
+            if hit is not None:
+                return hit
         prev_row = None
         n = self.n
         for i, (comb, cp) in enumerate(cx):
@@ -414,7 +425,12 @@ class Universe:
                     raise SelError("combinator %r" % comb)
                 row[x] = cm & r
             prev_row = row
-        return prev_row[e]
+        if credit is None or credit.get("__frozen__"):
+            cache[key] = prev_row
+        return prev_row
+
+    def match_complex(self, cx, e, credit=None):
+        return self.match_complex_all(cx, credit)[e]
 
     def match_compound(self, cp, x, credit=None):
         m = self.ALL
@@ -461,6 +477,12 @@ class Universe:
         return nodes
 
 
+def _freeze(x):
+    if isinstance(x, (list, tuple)):
+        return tuple(_freeze(i) for i in x)
+    return x
+
+
 def universes(atoms, max_nodes=3, max_bits=8_000_000):
     """Universe objects for all forest shapes with 1..max_nodes nodes (skipping those whose index space is too large)"""
     out = []
@@ -475,12 +497,12 @@ def universes(atoms, max_nodes=3, max_bits=8_000_000):
 def subset_violation(us, sl_small, sl_big, credit_small=None, credit_big=None):
     """find a DOM/element where sl_small matches but sl_big does not. Returns (universe, element, witness) or None"""
     for u in us:
+        ra = u.match_all(sl_small, credit_small(u) if credit_small else None)
+        if not any(ra):
+            continue
+        rb = u.match_all(sl_big, credit_big(u) if credit_big else None)
         for e in range(u.n):
-            a = u.match_list(sl_small, e, credit_small(u) if credit_small else None)
-            if not a:
-                continue
-            b = u.match_list(sl_big, e, credit_big(u) if credit_big else None)
-            bad = a & ~b
+            bad = ra[e] & ~rb[e]
             if bad:
                 return u, e, u.witness(bad)
     return None
